@@ -54,3 +54,22 @@ Definition logged_ok (Q A : list (prefix * path)) (t : top) : Prop :=
   | TGet pfx p | TRem pfx p _ => In (pfx, p) Q
   | TIns pfx p => In (pfx, p) A
   end.
+
+(* names of the closure-free functions an expression may call *)
+Fixpoint fnames (e : expr) : list fname :=
+  let fl := fix fl (l : list expr) : list fname :=
+              match l with [] => [] | x :: r => fnames x ++ fl r end in
+  match e with
+  | ECall f es => f :: fl es
+  | EQExpr e1 _ | EGroup e1 | ENot e1 | EAssign _ e1 | EAssignInf _ _ e1 _ | EReturn e1 => fnames e1
+  | EArr es | EBlock es => fl es
+  | EObj kvs =>
+      (fix go (l : list (bytes * expr)) : list fname :=
+         match l with [] => [] | kv :: r => fnames (snd kv) ++ go r end) kvs
+  | EIf c t f => fl c ++ fl t ++ match f with Some fb => fl fb | None => [] end
+  | EOp _ a b => fnames a ++ fnames b
+  | EAbort (Some m) => fnames m
+  | EClosure _ arg _ body => fnames arg ++ fl body
+  | _ => []
+  end.
+Definition fnames_l (es : list expr) : list fname := flat_map fnames es.
